@@ -42,6 +42,20 @@ type Channel struct {
 	// Intruders: uploads without / with wrong credentials arrive together with the legitimate ones (channels with credentials only):
 	// each is answered 401 and changes nothing.
 	Intruders bool `json:"intruders,omitempty"`
+	// LateInit (>= 3 tracks): the last track's init segment is withheld from the init phase and arrives together with the second
+	// media number of the other tracks - the moment the channel starts and writes its first MPD. Only the order-independent
+	// facts are judged for such a channel.
+	LateInit bool `json:"late_init,omitempty"`
+	// Raw: the channel is configured to store uploads unprocessed (receiveNrRawSegments): no MPD; every upload is answered 200
+	// and stored as <track>_init_<k> in arrival order per track
+	Raw bool `json:"raw,omitempty"`
+}
+
+func (ch Channel) lateIdx() int {
+	if ch.LateInit && len(ch.Tracks) >= 3 {
+		return len(ch.Tracks) - 1
+	}
+	return -1
 }
 
 type Case struct {
@@ -80,6 +94,11 @@ func genCase(t *rapid.T) Case {
 		ch.Ignore = rapid.IntRange(0, 7).Draw(t, "ch-ignore") == 0
 		ch.Unlisted = rapid.IntRange(0, 5).Draw(t, "unlisted") == 0
 		ch.Intruders = rapid.Bool().Draw(t, "intruders")
+		ch.LateInit = rapid.IntRange(0, 3).Draw(t, "late-init") == 0
+		ch.Raw = rapid.IntRange(0, 5).Draw(t, "raw") == 0
+		if ch.Raw {
+			ch.Shifted, ch.LateInit, ch.Unlisted = false, false, false
+		}
 		nt := rapid.IntRange(2, 8).Draw(t, "ntracks")
 		for ti := 0; ti < nt; ti++ {
 			kind := "video"
@@ -161,6 +180,9 @@ func (c Case) config() *rxapp.Config {
 			continue
 		}
 		cc := rxapp.ChannelConfig{Name: ch.Name, TimeShiftBufferDepthS: 60, Ignore: ch.Ignore}
+		if ch.Raw {
+			cc.ReceiveNrRawSegments = 1000
+		}
 		if ch.Auth {
 			cc.AuthUser, cc.AuthPswd = "user", "secret"
 		}
@@ -237,9 +259,22 @@ func runOnce(c Case, storage string, concurrent bool) (*hx.Violation, map[string
 			return hx.V("upload-never-answered", "%s: at least one concurrent upload was not answered within 20 s", what)
 		}
 	}
+	// per track: the bodies answered 200, in upload order (raw channels store them under a running index)
+	var rawMu sync.Mutex
+	rawSeq := map[string][][]byte{}
+	noteRaw := func(ch Channel, tr Track, body []byte) {
+		if ch.Raw {
+			rawMu.Lock()
+			rawSeq[ch.Name+"/"+tr.Name] = append(rawSeq[ch.Name+"/"+tr.Name], body)
+			rawMu.Unlock()
+		}
+	}
 	// phase 1: all first uploads (init segments) at once
 	for _, ch := range c.Channels {
-		for _, tr := range ch.Tracks {
+		for ti, tr := range ch.Tracks {
+			if ti == ch.lateIdx() {
+				continue
+			}
 			ch, tr := ch, tr
 			do(func() {
 				init, err := rx.Init(tr.Kind)
@@ -251,6 +286,7 @@ func runOnce(c Case, storage string, concurrent bool) (*hx.Violation, map[string
 					fail(hx.V("init-refused", "init of %s/%s -> %d", ch.Name, tr.Name, code))
 					return
 				}
+				noteRaw(ch, tr, init)
 				if st, ok := r.R.VerifChannelState(ch.Name, false); ok {
 					mu.Lock()
 					if tokens[ch.Name] == nil {
@@ -298,11 +334,14 @@ func runOnce(c Case, storage string, concurrent bool) (*hx.Violation, map[string
 		}
 		var want []string
 		for _, tr := range live(ch) {
+			if li := ch.lateIdx(); li >= 0 && tr.Name == ch.Tracks[li].Name {
+				continue
+			}
 			want = append(want, tr.Name)
 		}
 		sort.Strings(want)
 		// in every sequential order the master track is the first registered video track
-		isVideo := false
+		isVideo := ch.Raw // (a raw channel does not look into the uploads: no master track)
 		for _, tr := range live(ch) {
 			if tr.Name == st.MasterTrack && tr.Kind == "video" {
 				isVideo = true
@@ -334,11 +373,27 @@ func runOnce(c Case, storage string, concurrent bool) (*hx.Violation, map[string
 				if err != nil {
 					return hx.V("harness", "%v", err), nil
 				}
+				if ti == ch.lateIdx() {
+					if k == 1 || (c.M == 1 && k == 0) {
+						// the late track's init arrives while the other tracks deliver the number that starts the channel
+						do(func() {
+							init, _ := rx.Init(tr.Kind)
+							if code := r.Upload("PUT", c.urlFor(ch, tr, "init"), init, c.hdr(ch), true); code != 200 {
+								fail(hx.V("init-refused", "late init of %s/%s -> %d", ch.Name, tr.Name, code))
+							}
+						})
+					}
+					if k < 2 {
+						continue
+					}
+				}
 				bodies[fmt.Sprintf("%s/%s/%d", ch.Name, tr.Name, seq)] = body
 				do(func() {
 					if code := r.Upload("PUT", c.urlFor(ch, tr, fmt.Sprint(seq)), body, c.hdr(ch), true); code != 200 {
 						fail(hx.V("upload-refused", "%s/%s seq %d -> %d", ch.Name, tr.Name, seq, code))
+						return
 					}
+					noteRaw(ch, tr, body)
 				})
 				if ti == 0 && ch.Intruders && c.needsAuth(ch) && !(ch.Ignore && !ch.Unlisted) {
 					// the same number for the same track, other content, without / with wrong credentials
@@ -383,9 +438,11 @@ func runOnce(c Case, storage string, concurrent bool) (*hx.Violation, map[string
 				do(func() {
 					if code := r.Upload("PUT", c.urlFor(ch, tr, fmt.Sprint(settle)), body, c.hdr(ch), true); code != 200 {
 						fail(hx.V("upload-refused", "%s/%s seq %d (during re-sent inits) -> %d", ch.Name, tr.Name, settle, code))
+						return
 					}
+					noteRaw(ch, tr, body)
 				})
-				if ti < 2 {
+				if ti < 2 && !ch.Raw { // (a raw channel numbers the uploads of a track as they come: one at a time per track)
 					do(func() {
 						init, _ := rx.Init(tr.Kind)
 						if code := r.Upload("PUT", c.urlFor(ch, tr, "init"), init, c.hdr(ch), true); code != 200 {
@@ -420,16 +477,44 @@ func runOnce(c Case, storage string, concurrent bool) (*hx.Violation, map[string
 			if code := r.Upload("PUT", c.urlFor(ch, tr, fmt.Sprint(seq)), body, c.hdr(ch), true); code != 200 {
 				return hx.V("upload-refused", "settling upload %s/%s seq %d -> %d", ch.Name, tr.Name, seq, code), nil
 			}
+			noteRaw(ch, tr, body)
 			r.R.VerifQuiesce(ch.Name)
 		}
 	}
 	mpds := map[string]map[string]string{}
 	for _, ch := range c.Channels {
 		r.R.VerifQuiesce(ch.Name)
+		chDir := filepath.Join(storage, ch.Name)
+		if ch.Raw && !(ch.Ignore && !ch.Unlisted) {
+			for _, tr := range live(ch) {
+				for i, want := range rawSeq[ch.Name+"/"+tr.Name] {
+					p := filepath.Join(chDir, tr.Name, fmt.Sprintf("%s_init_%d%s", tr.Name, i, rx.Kinds[tr.Kind].Ext))
+					got, err := os.ReadFile(p)
+					if err != nil {
+						return hx.V("upload-lost", "raw channel %s: upload %d of track %s was answered 200 but is not stored: %v", ch.Name, i, tr.Name, err), nil
+					}
+					if !bytes.Equal(got, want) {
+						return hx.V("upload-misattributed", "raw channel %s: %s does not hold the bytes of upload %d of track %s", ch.Name, p, i, tr.Name), nil
+					}
+				}
+			}
+			continue
+		}
+		if ch.lateIdx() >= 0 && len(live(ch)) > 0 {
+			st, _ := r.R.VerifChannelState(ch.Name, false)
+			var want []string
+			for _, tr := range live(ch) {
+				want = append(want, tr.Name)
+			}
+			sort.Strings(want)
+			if strings.Join(st.Tracks, ",") != strings.Join(want, ",") {
+				return hx.V("track-not-registered", "channel %s (one init arriving while the channel starts): registered tracks %v, uploaded %v", ch.Name, st.Tracks, want), nil
+			}
+			continue
+		}
 		if ch.Shifted {
 			continue
 		}
-		chDir := filepath.Join(storage, ch.Name)
 		if len(live(ch)) == 0 {
 			// an ignored channel keeps nothing
 			n := 0
@@ -555,6 +640,12 @@ func TestC19(t *testing.T) {
 			if ch.Unlisted {
 				seen["unlisted-channel"] = true
 			}
+			if ch.lateIdx() >= 0 {
+				seen["init-while-channel-starts"] = true
+			}
+			if ch.Raw {
+				seen["raw-channel"] = true
+			}
 			if ch.Intruders && c.needsAuth(ch) && !(ch.Ignore && !ch.Unlisted) {
 				seen["unauthorised-uploads"] = true
 			}
@@ -562,7 +653,7 @@ func TestC19(t *testing.T) {
 		if c.DefaultAuth {
 			seen["default-credentials"] = true
 		}
-		for _, k := range []string{"ignored-channel", "ignored-track", "unlisted-channel", "unauthorised-uploads", "default-credentials"} {
+		for _, k := range []string{"ignored-channel", "ignored-track", "unlisted-channel", "unauthorised-uploads", "default-credentials", "init-while-channel-starts", "raw-channel"} {
 			if seen[k] {
 				cls = append(cls, k)
 			}
